@@ -64,7 +64,7 @@ def verify(i):
         # a demonstration of a pure data race says so in its README: it is run under the race detector
         race = []
         rd = os.path.join(d, "README.md")
-        if os.path.exists(rd) and re.search(r"-race` is required|requires? `?-race|needs? `?-race|[Oo]nly the race detector|needs -race|must be run with `?-race", open(rd).read()):
+        if os.path.exists(rd) and re.search(r"-race` is required|requires? `?-race|needs? `?-race|[Oo]nly the race detector|needs -race|[Mm][Uu][Ss][Tt] be run with `?-race", open(rd).read()):
             race = ["-race"]
             res["demo_under_race_detector"] = True
         rc0, out0 = sh(["go", "test"] + race + ["-vet=off", "-count=1", "-run", runpat, "./pkg/ggql/"], cwd=wt)
